@@ -1,0 +1,28 @@
+// SPDX-FileCopyrightText: 2020-present Open Networking Foundation <info@opennetworking.org>
+//
+// SPDX-License-Identifier: Apache-2.0
+
+//go:build verif
+// +build verif
+
+package transaction
+
+import (
+	proposalstore "github.com/onosproject/onos-config/pkg/store/v2/proposal"
+	transactionstore "github.com/onosproject/onos-config/pkg/store/v2/transaction"
+)
+
+// NewReconcilerForVerif builds the transaction reconciler for the external verification harness
+func NewReconcilerForVerif(transactions transactionstore.Store, proposals proposalstore.Store) *Reconciler {
+	return &Reconciler{transactions: transactions, proposals: proposals}
+}
+
+// NewWatcherForVerif builds the transaction store watcher
+func NewWatcherForVerif(transactions transactionstore.Store) *Watcher {
+	return &Watcher{transactions: transactions}
+}
+
+// NewProposalWatcherForVerif builds the proposal store watcher of the transaction controller
+func NewProposalWatcherForVerif(proposals proposalstore.Store) *ProposalWatcher {
+	return &ProposalWatcher{proposals: proposals}
+}
